@@ -225,6 +225,10 @@ def cfg_text(cfg):
         parts.append('open=%s:%s' % tuple(cfg['open']))
     if cfg.get('groupref'):
         parts.append('groupref')
+    if cfg.get('groupref_root'):
+        parts.append('model-is-a-reference-to-a-named-group')
+    if cfg.get('two_heads'):
+        parts.append('two-heads')
     return ' [' + ' '.join(parts) + ']' if parts else ''
 
 
